@@ -86,6 +86,8 @@ class QuicConnectionProtocol(asyncio.DatagramProtocol):
         stream_id = self._quic.get_next_available_stream_id(
             is_unidirectional=is_unidirectional
         )
+        # reserve the stream ID so that a concurrent call cannot get the same one
+        self._quic.send_stream_data(stream_id, b"")
         return self._create_stream(stream_id)
 
     def request_key_update(self) -> None:
